@@ -82,6 +82,7 @@ class Heap:
 
     def key_arrays(self, rec, field, fty):
         out = []
+        rec, field = S.fkey(rec, field)
         for i, s in enumerate(fty.sorts()):
             k = (rec, field, i)
             if k not in self.maps:
@@ -95,10 +96,12 @@ class Heap:
     def write(self, rec, field, fty, ref, val):
         val = V.coerce(val, fty)
         arrs = self.key_arrays(rec, field, fty)
+        rec, field = S.fkey(rec, field)
         for i, (a, p) in enumerate(zip(arrs, val.parts)):
             self.maps[(rec, field, i)] = z3.Store(a, ref, p)
 
     def havoc_field(self, rec, field, fty):
+        rec, field = S.fkey(rec, field)
         for i, s in enumerate(fty.sorts()):
             self.maps[(rec, field, i)] = z3.Const(V.fresh_name(f"H_{rec}_{field}_{i}"), z3.ArraySort(T.RefSort, s))
 
